@@ -72,6 +72,7 @@ func propC19(c *Ctx) propInfo {
 	c.floor("E2.R-drop", 10)
 	c.tonProofLayout()
 	c.proofDataflow()
+	c.hashSingleImplementation() // compareStateInitWithAddress trusts Cell.Hash of a parsed state-init
 	c.walletConfigFlow() // the state-init the key is taken from must hash to the address: both come from the wallet package
 	return propInfo{
 		explanation: "Static structural clauses of C19 (DESIGN.md §4 C19): every accepting exit of CheckProof is dominated by the passing edges of payload check, lifetime comparison, domain check, signature verification, and the state-init key extraction is dominated by the state-init/address comparison; CheckPayload accepts only through the constant-time MAC comparison, the expiry comparison and the length check; signed-message byte layout equals the spec; no panic is reachable from the entry points; error discipline in package tonconnect. Decides these necessary conditions, not unforgeability.",
